@@ -785,6 +785,14 @@ def report(prop, tier, seed, results, extras, wall, rebaseline, replay):
                     # a unit about what is reachable cannot pass over a callee whose effects nobody stated
                     undecided.append('%s: new callee(s) %s have no contract and reach no forbidden function by name; whether they write is not known to the unit'
                                      % (u.name, ', '.join(free)))
+        if getattr(u, 'auto_stubs', None) and unit_header_opts(os.path.join(VERIF, 'units', u.name)).get('strictcallees') and u.status == 'ok':
+            # writers under the seq lock: a callee nobody gave a contract may refuse, append or take locks; the functions that call it
+            # are not vouched for by a proof that never looked inside it (seeded change C07-3)
+            refs = sorted({'%s -> %s' % (ref, st['qual']) for ref, lst in (getattr(u, 'auto_map', None) or {}).items() for st in lst
+                           if st.get('kind') != 'const' and (only_fns is None or ref in only_fns)})
+            if refs:
+                undecided.append('%s: new callee(s) without a contract inside a writer of the thread stream (%s); what they do under the seq lock is not known to the unit'
+                                 % (u.name, ', '.join(refs)))
         if u.mutants:
             mutants.extend(dict(unit=u.name, **m) for m in u.mutants)
         if u.seeds:
